@@ -28,6 +28,9 @@ def draw_collection(ch, max_images=6, sizes=(60, 200, 300, 520, 700, 256, 512)):
     col = Collection()
     cw = sizes[ch.draw(len(sizes), kind="canvas_w")]
     chh = sizes[ch.draw(len(sizes), kind="canvas_h")]
+    if 700 in sizes and ch.draw(14, kind="three_level_canvas") == 13:
+        # wider than 1024 pixels: a power-of-two square of 2048, three tile levels
+        cw = (1100, 1300)[ch.draw(2, kind="big_w")]
     n = 1 + ch.draw(max_images, kind="n_images")
     # layout 0: independent random rectangles; 1: one input covering (almost) the whole canvas - hence whole
     # tiles - with the others lying on top of it; 2: a regular grid of abutting / slightly overlapping cells
@@ -77,7 +80,21 @@ def draw_collection(ch, max_images=6, sizes=(60, 200, 300, 520, 700, 256, 512)):
     col.dec = (20.0, -45.5, 0.0, 70.0)[ch.draw(4, kind="dec")]
     col.scale = (1.0 / 1024, 1.0 / 4096, 0.01)[ch.draw(3, kind="scale")]
     col.theta = (0.0, 30.0, -115.0, 180.0)[ch.draw(4, kind="rotation")]
+    # how the files carry the data: image in the primary HDU or in the first extension behind an empty primary
+    # (toasty scans for the first image HDU); undefined pixels as NaN or as a sentinel declared through `blankval`
+    for r in col.rects:
+        r["in_extension"] = ch.draw(4, kind="hdu_container") == 3
+    col.blankval = -32768.0 if ch.draw(5, kind="blankval") == 4 else None
     return col
+
+
+def load_kwargs(col):
+    return {"blankval": col.blankval} if getattr(col, "blankval", None) is not None else {}
+
+
+def load_collection(col):
+    from toasty import collection
+    return collection.load(col.paths, **load_kwargs(col))
 
 
 def cd_topdown(col):
@@ -146,7 +163,13 @@ def write_collection(col, d):
         hdr = header_for(col, r["r0"], r["c0"], r["h"], r["bottom_up"])
         data = a[::-1] if r["bottom_up"] else a
         p = os.path.join(d, "in%d.fits" % k)
-        fits.PrimaryHDU(data=np.ascontiguousarray(data), header=hdr).writeto(p, overwrite=True)
+        data = np.ascontiguousarray(data)
+        if getattr(col, "blankval", None) is not None:
+            data = np.where(np.isnan(data), np.asarray(col.blankval, dtype=data.dtype), data)
+        if r.get("in_extension"):
+            fits.HDUList([fits.PrimaryHDU(), fits.ImageHDU(data=data, header=hdr, name="SCI")]).writeto(p, overwrite=True)
+        else:
+            fits.PrimaryHDU(data=data, header=hdr).writeto(p, overwrite=True)
         paths.append(p)
     col.paths = paths
     return paths
@@ -159,7 +182,8 @@ def mosaic_wcs(col):
 
 def describe(col):
     return {"canvas_bbox": [col.R0, col.C0, col.H, col.W], "dtype": np.dtype(col.dtype).name,
-            "rects": [(r["r0"], r["c0"], r["h"], r["w"], r["border"], r["holes"], "bu" if r["bottom_up"] else "td") for r in col.rects],
+            "rects": [(r["r0"], r["c0"], r["h"], r["w"], r["border"], r["holes"], "bu" if r["bottom_up"] else "td", "ext" if r.get("in_extension") else "pri") for r in col.rects],
+            "blankval": getattr(col, "blankval", None),
             "crpix": [col.px, col.py], "crval": [col.ra, col.dec], "scale": col.scale, "rot": col.theta}
 
 
